@@ -298,18 +298,17 @@ def install(rec):
 
     def p_fsync(fd):
         r = _current()
-        h = None
-        if r is not None:
-            h = r.handles.get(fd)
-            if h is None:
-                for k, v in list(r.handles.items()):
-                    pass
-        if r is None or h is None:
-            # fsync on an fd we know through a proxy: find by fileno
-            if r is not None:
-                return r.call("fsync", lambda: R["fsync"](fd), h="fd")
+        if r is None:
             return R["fsync"](fd)
-        return r.call("fsync", lambda: R["fsync"](fd), h=h)
+        h = r.handles.get(fd)
+        if h is not None:
+            return r.call("fsync", lambda: R["fsync"](fd), h=h)
+        # a descriptor the recorder did not hand out (os.open, dup, a directory): name the file it refers to
+        try:
+            path = r.name(R["readlink"]("/proc/self/fd/%d" % fd))
+        except OSError:
+            path = "-"
+        return r.call("fsync", lambda: R["fsync"](fd), h="fd", path=path)
 
     builtins.open = p_open
     io.open = p_open
